@@ -758,7 +758,7 @@ def run_server(ctx, rng):
                     if val != hashlib.pbkdf2_hmac('sha256', key, b'salt', 3, length // 8):
                         ctx.violation('server|derive|pbkdf2', 'derived key differs from the PBKDF2 reference or has the wrong length '
                                       '(%s bits asked, %s bytes stored)' % (length, len(val or b'')), None)
-                wk = store.register(srv, 'sym', 'alice', rng, value=rb(rng, 16), masks=[E.CryptographicUsageMask.WRAP_KEY], state='active')
+                wk = store.register(srv, 'sym', 'alice', rng, value=rb(rng, rng.choice((16, 24, 32))), masks=[E.CryptographicUsageMask.WRAP_KEY], state='active')
                 tk = store.register(srv, 'sym', 'alice', rng, value=rb(rng, rng.choice((16, 24, 32))), state='pre')
                 g = srv.send([op_get(tk.uid, wrap=wrap_spec(wk.uid))], a, (1, 2))
                 if g.error is None and g.ok():
